@@ -19,7 +19,13 @@ def gen_examples(rng, exotic=None):
     if rng.random() < 0.15:
         # digit-like and non-ASCII decimal digits, punctuation pairs
         ex += [rng.choice(['10$', '25$', 'US$', 'a=$', '99$', '\\$', '²', '³', '½', '٣', '５', 'a²', '1²', '^-', '-^', '^', '-', ']-', '\\', 'a\\b', 'é1', 'Ⅷ', 'x_y',
-                           'a.b', 'a-b', ' a', 'a ', '\ta', 'a\n', '\n', 'a\nb']) for _ in range(rng.randint(1, 3))]
+                           'a.b', 'a-b', ' a', 'a ', '\ta', 'a\n', '\n', 'a\nb',
+                           # literal text shaped like a quantifier / group / class / alternation
+                           'x{3}', 'v{1,2}', 'w{1,2}', '{7}', 'ab{2}', 'cd{2}', 'id-{10}-a', 'x{y}', 'a{', '}', 'a*', 'b+', 'c?', '(a)',
+                           '[ab]', 'a|b', 'x{,2}', 'q{2,}']) for _ in range(rng.randint(1, 3))]
+    if rng.random() < 0.04:
+        # nothing left to extract from: no examples, or only values the options remove
+        ex = rng.choice([[], [None], [None, None], ['', ' ', '  '], ['']])
     if rng.random() < 0.12:
         # a wide group: > max_strings_in_group distinct values in one fragment, the late ones with new characters
         ex = list(ex) if rng.random() < 0.3 else []
